@@ -28,7 +28,7 @@ for p in props:
           "level_note": "Sequentially consistent steps (no weak-memory reorderings); exhaustive only within the constants of the TLC configs; harness, cfg(circ_verif) hooks and recorder trusted; release build of the crate.",
           "technique": tech})
 m = {"version": 1,
- "setup_cmd": "cd /verif/harness && (test -f Cargo.lock || cp /repo/Cargo.lock .) && CARGO_NET_OFFLINE=true cargo build --release --offline && cd /verif/specs && for s in Circ TraceCirc Ebr MCEbr TraceEbr Bits MCBits TraceBits PtrOrd TracePtrOrd MSQueue RegList TraceQL TraceRows; do tla-sany $s.tla >/dev/null || exit 1; done",
+ "setup_cmd": "cd /verif/harness && (test -f Cargo.lock || cp /repo/Cargo.lock .) && CARGO_NET_OFFLINE=true cargo build --release --offline && CARGO_NET_OFFLINE=true cargo build --offline --profile dbg && cd /verif/specs && for s in Circ TraceCirc Ebr MCEbr TraceEbr Bits MCBits TraceBits PtrOrd TracePtrOrd MSQueue RegList TraceQL TraceRows; do tla-sany $s.tla >/dev/null || exit 1; done",
  "hooks": {"guard": "circ_verif", "enable": "rustflags --cfg circ_verif in /verif/harness/.cargo/config.toml; the harness depends on /repo by path, so every check rebuilds from /repo's working tree",
            "baseline_off_cmd": "cd /repo && cargo test --workspace --no-fail-fast --offline",
            "source_commits": EXTRA.get("hook_commits", []), "add_only": True},
